@@ -46,7 +46,9 @@ func init() {
 func walLens(r *core.Rand, del bool) (int, int) {
 	const max = wal.MaxRecordSize
 	k := r.Range(1, 40)
-	if r.Chance(6) {
+	if r.Chance(3) {
+		k = 0 // the log itself accepts an empty key (the smallest possible payload: 13 bytes for a delete)
+	} else if r.Chance(6) {
 		k = []int{max - 13, max - 12, max - 14, max, max + 1, 2*max + 7, 40000}[r.Intn(7)] // the key itself is fragmented
 	}
 	if del {
